@@ -8,6 +8,29 @@ HERE = os.path.dirname(os.path.dirname(os.path.abspath(__file__)))
 ALL = ["C%02d" % i for i in range(1, 21)]
 
 CHECKS = {
+ "C02": dict(
+  category="exploration",
+  text="Direct runtime harness over the real headers: UIntView / IntView / BcdView over OffsetBitBlock<BitBlock<...>> for EVERY "
+       "(container 8..64, width, offset) triple (6672 triples x 3 types x 2 byte orders), FlagView at every bit, FloatView 32/64, "
+       "EnumView over 8 underlying types at every width, views placed directly on whole BitBlocks; default, 8-aligned-buffer and "
+       "EMBOSS_NO_OPTIMIZATIONS builds under ASan+UBSan; contents = zeros, ones, field lsb/msb only, all-but-field, all-but-sign, "
+       "BCD-valid, random. Each printed observation (Ok, Read, ValueType width and signedness, CouldWriteValue/TryToWrite and "
+       "the bytes afterwards) is judged by a pure-Python bit-slice decoder. The generated-code path for scalars at arbitrary "
+       "offsets is exercised by C01's modules.",
+  note="Triple space enumerated exhaustively, contents sampled (8 quick / 40 thorough per triple); x86-64 host only.",
+  technique="exhaustive-configuration runtime harness on sanitizer builds + independent bit-slice oracle",
+  design_ref="5/C02"),
+ "C19": dict(
+  category="exploration",
+  text="Reference-model monitor: for generated enums (1-12 names, duplicate / negative / 64-bit-edge values, explicit or "
+       "inferred is_signed, maximum_bits 1..64, enum_case at module / enum / value level with one or two spellings, namespaces, "
+       "with and without enum traits, clang and g++) a driver prints std::is_signed and sizeof of the underlying type, the value of "
+       "every enumerator spelling, and TryToGetEnumFromName / TryToGetNameFromEnum / EnumIsKnown / operator<< over probe names "
+       "(declared, case-converted, prefixes, suffixes, lower case, empty, null) and probe values (declared +-1, 0, type min/max); "
+       "compared with the model computed from the definition. Field behaviour of enums at every width is C02/C03.",
+  note="operator<< of an unnamed value of an 8-bit enum (streams a char) is not judged: the property does not cover it.",
+  technique="runtime differential monitoring of generated enum helpers against a model of the definition",
+  design_ref="5/C19"),
  "C06": dict(
   category="exploration",
   text="Round-trip monitor inside an ASan+UBSan driver of the real generated code: for Ok views of generated modules (with "
